@@ -38,7 +38,9 @@ func runC02(c *Ctx) {
 	// ------------------------------------------------------------ S1
 	c.Rule("C02.S1", "GATE", "in vote the SendMessageEvent is posted only after UpdateVoteData returned nil; UpdateVoteData returns nil only after the record was written (db.Put == nil) and the mark was raised, and writes only when alreadyVoted is false")
 	c.Min(3)
-	updCalls := callsTo(vote, updObj)
+	// the second half of vote (record, count, post) may be split off into a method of its own
+	voteTail := voteTailOf(w, vote, updObj)
+	updCalls := callsTo(voteTail, updObj)
 	nPost := 0
 	isPost := func(in ssa.Instruction) bool {
 		ci, isCall := in.(ssa.CallInstruction)
@@ -53,7 +55,7 @@ func runC02(c *Ctx) {
 		return len(args) > 0 && types.Identical(stripConv(args[0]).Type(), sendEv)
 	}
 	// the post itself, or the call of a split-off tail of vote that posts
-	for _, ci := range sitesVia(w, vote, isPost) {
+	for _, ci := range sitesVia(w, voteTail, isPost) {
 		nPost++
 		c.sites++
 		ok := false
@@ -190,17 +192,29 @@ func runC02(c *Ctx) {
 	confine(w.FuncObj(uconPkg, "Voter", "signVote"), map[string]bool{"(consensus/ucon.Voter).vote": true})
 	confine(w.FuncObj(uconPkg, "VoteBLSMgr", "SignVote"), map[string]bool{"(consensus/ucon.Voter).signVote": true})
 	// inside vote, the signature is produced by signVote only, and UpdateVoteData is on every success path
-	for i, rp := range returnPaths(vote, errResultIdx(vote)) {
-		if !rp.MayBeNil() {
-			continue
-		}
-		ok := false
-		for _, u := range updCalls {
-			if hasErrNil(rp.Atoms(), u) {
-				ok = true
+	voteFns := []*ssa.Function{vote}
+	if voteTail != vote {
+		voteFns = append(voteFns, voteTail)
+	}
+	for _, vfn := range voteFns {
+		for i, rp := range returnPaths(vfn, errResultIdx(vfn)) {
+			if !rp.MayBeNil() {
+				continue
 			}
+			ok := false
+			for _, u := range updCalls {
+				if hasErrNil(rp.Atoms(), u) {
+					ok = true
+				}
+			}
+			if vfn == vote && voteTail != vote {
+				// return v.tail(...): judged at the tail's own returns
+				if cc, isCall := stripConvNoBind(rp.Ret.Results[errResultIdx(vfn)]).(*ssa.Call); isCall && cc.Call.StaticCallee() == voteTail {
+					ok = true
+				}
+			}
+			c.Check(fmt.Sprintf("%s#accepting-return-%d", fname(vote), i), rp.Ret.Pos(), ok, ifelse(ok, "vote reports success only after the record was persisted", "vote can report success (and set the once-only latch of its caller) without a persisted record"))
 		}
-		c.Check(fmt.Sprintf("%s#accepting-return-%d", fname(vote), i), rp.Ret.Pos(), ok, ifelse(ok, "vote reports success only after the record was persisted", "vote can report success (and set the once-only latch of its caller) without a persisted record"))
 	}
 
 	// ------------------------------------------------------------ S3
@@ -232,7 +246,14 @@ func runC02(c *Ctx) {
 		a := callArgs(ci)
 		k, ok1 := constInt(a[2])
 		idx, ok2 := constInt(a[3])
-		if !ok1 || !ok2 {
+		var rows [][2]int64
+		if ok1 && ok2 {
+			rows = append(rows, [2]int64{k, idx})
+		} else {
+			// a loop over a package-level table of (kind, index) slots: every row is read
+			rows = tableRows(newDB, a[2], a[3])
+		}
+		if len(rows) == 0 {
 			continue
 		}
 		// the record must be handed to the restore closure
@@ -247,10 +268,12 @@ func runC02(c *Ctx) {
 			}
 		}
 		if used {
-			if replayed[k] == nil {
-				replayed[k] = map[int64]bool{}
+			for _, row := range rows {
+				if replayed[row[0]] == nil {
+					replayed[row[0]] = map[int64]bool{}
+				}
+				replayed[row[0]][row[1]] = true
 			}
-			replayed[k][idx] = true
 		}
 	}
 	var ks []int64
@@ -1163,4 +1186,136 @@ func c02ReplayFilter(c *Ctx, w *World) {
 		}
 		c.Check(fname(fn)+"#no-kind-filter-on-replay", fn.Pos(), bad == "", ifelse(bad == "", "the record's kind is not compared with any constant", "the record's VoteType is compared with a constant at "+bad+": records of some persisted kind can be dropped on start, and that kind is then signed a second time in the same round / index"))
 	}
+}
+
+// voteTailOf: vote itself, or the method (called only from vote) into which its second half — the call of
+// UpdateVoteData and what follows — was split off.
+func voteTailOf(w *World, vote *ssa.Function, updObj *types.Func) *ssa.Function {
+	if len(callsTo(vote, updObj)) > 0 {
+		return vote
+	}
+	for _, ci := range callInstrs(vote) {
+		if g := ci.Common().StaticCallee(); g != nil && g.Pkg == vote.Pkg && g.Blocks != nil && len(callsTo(g, updObj)) > 0 && onlyCalledFrom(w, g, vote) {
+			return g
+		}
+	}
+	return vote
+}
+
+// tableRows: x and y are two fields of the element of a range over a package-level slice whose initialiser is a
+// literal of constants — the (x, y) pairs of all its rows. Nil if the shape is anything else.
+func tableRows(fn *ssa.Function, x, y ssa.Value) [][2]int64 {
+	fieldOfElem := func(v ssa.Value) (*ssa.Global, int, bool) {
+		// conversions of the loaded field are looked through
+		v = stripConvNoBind(v)
+		u, ok := v.(*ssa.UnOp)
+		if !ok || u.Op != token.MUL {
+			// range over a slice of structs copies the element: Field of the loaded element
+			if f, isF := v.(*ssa.Field); isF {
+				if lu, isU := f.X.(*ssa.UnOp); isU && lu.Op == token.MUL {
+					if ia, isIA := lu.X.(*ssa.IndexAddr); isIA {
+						if gl, isGL := ia.X.(*ssa.UnOp); isGL && gl.Op == token.MUL {
+							if g, isG := gl.X.(*ssa.Global); isG {
+								return g, f.Field, true
+							}
+						}
+					}
+				}
+			}
+			return nil, 0, false
+		}
+		fa, ok := u.X.(*ssa.FieldAddr)
+		if !ok {
+			return nil, 0, false
+		}
+		base := fa.X
+		// the range variable kept in a local: the element copied into it
+		if al, isAl := base.(*ssa.Alloc); isAl {
+			var stored ssa.Value
+			n := 0
+			for _, r := range *al.Referrers() {
+				if st, isSt := r.(*ssa.Store); isSt && st.Addr == ssa.Value(al) {
+					stored = st.Val
+					n++
+				}
+			}
+			if n != 1 {
+				return nil, 0, false
+			}
+			lu, isU := stored.(*ssa.UnOp)
+			if !isU || lu.Op != token.MUL {
+				return nil, 0, false
+			}
+			base = lu.X
+		}
+		ia, ok := base.(*ssa.IndexAddr)
+		if !ok {
+			return nil, 0, false
+		}
+		gl, ok := ia.X.(*ssa.UnOp)
+		if !ok || gl.Op != token.MUL {
+			return nil, 0, false
+		}
+		g, ok := gl.X.(*ssa.Global)
+		return g, fa.Field, ok
+	}
+	gx, fx, okx := fieldOfElem(x)
+	gy, fy, oky := fieldOfElem(y)
+	if !okx || !oky || gx != gy {
+		return nil
+	}
+	// the initialiser: stores of constants into fields of the elements of one array, in the package's init
+	initFn := gx.Pkg.Func("init")
+	if initFn == nil {
+		return nil
+	}
+	vals := map[int64]map[int]int64{}
+	okAll := true
+	for _, in := range allInstrs(initFn) {
+		st, ok := in.(*ssa.Store)
+		if !ok {
+			continue
+		}
+		fa, ok := st.Addr.(*ssa.FieldAddr)
+		if !ok {
+			continue
+		}
+		ia, ok := fa.X.(*ssa.IndexAddr)
+		if !ok {
+			continue
+		}
+		// the array must be the one sliced into the global
+		feeds := false
+		for _, r := range *ia.X.Referrers() {
+			if sl, isSl := r.(*ssa.Slice); isSl {
+				for _, rr := range *sl.Referrers() {
+					if gs, isSt := rr.(*ssa.Store); isSt && gs.Addr == ssa.Value(gx) {
+						feeds = true
+					}
+				}
+			}
+		}
+		if !feeds {
+			continue
+		}
+		row, okR := constInt(ia.Index)
+		val, okV := constInt(st.Val)
+		if !okR || !okV {
+			okAll = false
+			continue
+		}
+		if vals[row] == nil {
+			vals[row] = map[int]int64{}
+		}
+		vals[row][fa.Field] = val
+	}
+	if !okAll {
+		return nil
+	}
+	var out [][2]int64
+	for _, fields := range vals {
+		out = append(out, [2]int64{fields[fx], fields[fy]})
+	}
+	_ = fn
+	return out
 }
